@@ -294,11 +294,19 @@ func r10_3(c *Ctx, r *Report) {
 	if fn == nil {
 		return
 	}
-	ef := c.eff.Of(fn)
+	// in the function and the unexported helpers it hands its work to (what the exported constructors it calls do
+	// with lists of their own is not its result)
 	onlyBack := true
-	for k := range ef.Ext {
-		if strings.HasPrefix(k, "(*container/list.List).") && (strings.Contains(k, "PushFront") || strings.Contains(k, "Insert") || strings.Contains(k, "Move")) {
-			onlyBack = false
+	for _, f := range withHelpers(c, fn) {
+		for _, b := range f.Blocks {
+			for _, ins := range b.Instrs {
+				if call, ok := ins.(*ssa.Call); ok && call.Common().StaticCallee() != nil {
+					k := call.Common().StaticCallee().String()
+					if strings.HasPrefix(k, "(*container/list.List).") && (strings.Contains(k, "PushFront") || strings.Contains(k, "Insert") || strings.Contains(k, "Move")) {
+						onlyBack = false
+					}
+				}
+			}
 		}
 	}
 	stride, asc := false, false
@@ -675,4 +683,80 @@ func r10_6(c *Ctx, r *Report) {
 	if n < 2 {
 		r.bad(rule, "instance floor R10.6", c.fnPos(fn), fmt.Sprintf("only %d loops found around the append (the candidate hours and the candidate years)", n))
 	}
+}
+
+// R10.7: the chart shows the day pillar the reverse lookup verifies.
+func r10_7(c *Ctx, r *Report) {
+	const rule = "R10.7"
+	r.rule(rule, "The chart shows the day pillar the reverse lookup verifies. The pillars handed to the reverse lookup are those an EightChar shows; the lookup verifies a candidate's day against GetDayInGanZhiExact under sect 1 and GetDayInGanZhiExact2 otherwise (R10.2). EightChar.GetDay, GetDayGan + GetDayZhi, and the stem and branch at GetDayGanIndex / GetDayZhiIndex, followed by the evaluator (helpers inline) with the three variants of the Lunar's day pillar as distinguishable inputs, are the early-rat variant when the chart's sect is 1 and the late-rat variant otherwise — stem and branch both. A chart whose stem follows one variant and whose branch the other shows, at 23:00-23:59, a pair that is not one of the sixty pillars, for which the lookup returns nothing.")
+	v := c.vocab(r, rule)
+	if v == nil {
+		return
+	}
+	pos := func(xs []string, s string) int {
+		for i, x := range xs {
+			if x == s {
+				return i
+			}
+		}
+		return -1
+	}
+	type probe struct {
+		name string
+		// what the result says about (stem index, branch index); -1 when it says nothing about that half
+		read func(res interface{}) (int, int, bool)
+	}
+	probes := []probe{
+		{"calendar.(*EightChar).GetDay", func(res interface{}) (int, int, bool) {
+			s, ok := res.(string)
+			rs := []rune(s)
+			if !ok || len(rs) != 2 {
+				return 0, 0, false
+			}
+			return pos(v.stems, string(rs[0])), pos(v.branches, string(rs[1])), true
+		}},
+		{"calendar.(*EightChar).GetDayGan", func(res interface{}) (int, int, bool) {
+			s, ok := res.(string)
+			return pos(v.stems, s), -1, ok
+		}},
+		{"calendar.(*EightChar).GetDayZhi", func(res interface{}) (int, int, bool) {
+			s, ok := res.(string)
+			return -1, pos(v.branches, s), ok
+		}},
+		{"calendar.(*EightChar).GetDayGanIndex", func(res interface{}) (int, int, bool) {
+			k, ok := res.(int64)
+			return int(k), -1, ok
+		}},
+		{"calendar.(*EightChar).GetDayZhiIndex", func(res interface{}) (int, int, bool) {
+			k, ok := res.(int64)
+			return -1, int(k), ok
+		}},
+	}
+	for _, p := range probes {
+		fn := c.Fn(r, rule, p.name)
+		if fn == nil || len(fn.Params) != 1 {
+			continue
+		}
+		var bad []string
+		// the sect field holds 1 or 2 only: SetSect stores 2 for every other argument and a new chart starts with 2 (R11.2)
+		for _, sect := range []int64{1, 2} {
+			in := dayVariants{e: 1, e2: 2, p: 4}
+			res, ok := eightCharRun(c, fn, sect, in)
+			if !ok {
+				bad = append(bad, fmt.Sprintf("sect %d: the method could not be followed", sect))
+				continue
+			}
+			g, z, ok := p.read(res)
+			want := in.e2
+			if sect == 1 {
+				want = in.e
+			}
+			// the inputs are the pillars number e, e2, p of the cycle: stem and branch index equal the number
+			if !ok || (g >= 0 && g != want) || (z >= 0 && z != want) || (g < 0 && z < 0) {
+				bad = append(bad, fmt.Sprintf("sect %d: %v (early-rat pillar %s, late-rat %s, plain %s), expected the %s", sect, res, dayVariantStrs[in.e], dayVariantStrs[in.e2], dayVariantStrs[in.p], dayVariantStrs[want]))
+			}
+		}
+		r.check(len(bad) == 0, rule, p.name+" is the day pillar of the chart's sect", c.fnPos(fn), fmt.Sprintf("sect 1 and 2 followed; deviations: %v", headList(bad, 3)))
+	}
+	r.floor(rule, 5)
 }
